@@ -1,15 +1,58 @@
 package acc
 
 import (
+	"os"
+	"path/filepath"
+	"regexp"
+	"sort"
+	"strconv"
+	"strings"
+	"sync"
+
 	"github.com/practable/relay/verifharness/lib"
 )
 
 // Emitters for Model/Token.v and Model/Access.v terms. Argument orders follow the Record definitions.
 
+// A table of strings that occur in almost every operation (this run's hosts and targets, the usual claim
+// words): each is defined once at the top of a shard and referred to by name, which keeps the shards small.
+var (
+	strMu    sync.Mutex
+	strNames = map[string]string{}
+	strOrder []string
+)
+
+// RegisterString puts s into the shard preamble.
+func RegisterString(s string) {
+	strMu.Lock()
+	defer strMu.Unlock()
+	if _, ok := strNames[s]; ok || len(s) < 3 {
+		return
+	}
+	strNames[s] = "cs" + strconv.Itoa(len(strOrder))
+	strOrder = append(strOrder, s)
+}
+
+func init() {
+	for _, w := range []string{"session", "read", "write", "relay:admin", "relay:stats", "shell", "host", "client"} {
+		RegisterString(w)
+	}
+}
+
+func cstr(s string) string {
+	strMu.Lock()
+	n, ok := strNames[s]
+	strMu.Unlock()
+	if ok {
+		return n
+	}
+	return lib.Str(s)
+}
+
 func strList(xs []string) string {
 	out := make([]string, len(xs))
 	for i, s := range xs {
-		out[i] = lib.Str(s)
+		out[i] = cstr(s)
 	}
 	return lib.List(out)
 }
@@ -36,21 +79,97 @@ func (b *Bks) Known(s string) (uint64, bool) {
 	return 0, false
 }
 
+// Bearer terms are long and the same bearer occurs many times (baseline requests, pools, populations): each
+// distinct term is defined once per shard (bdN) and cases refer to it by name.
+var (
+	bdMu    sync.Mutex
+	bdNames = map[string]string{}
+	bdTerms []string
+	bdRe    = regexp.MustCompile(`\bbd[0-9]+\b`)
+)
+
+func bearerRef(term string) string {
+	bdMu.Lock()
+	defer bdMu.Unlock()
+	if n, ok := bdNames[term]; ok {
+		return n
+	}
+	n := "bd" + strconv.Itoa(len(bdTerms))
+	bdNames[term] = n
+	bdTerms = append(bdTerms, term)
+	return n
+}
+
+// WriteShards writes cases_<k>.v files in the format of lib.WriteShards, each with the string table and with
+// the definitions of exactly the bearers its cases mention.
+func WriteShards(dir, prop string, cases []string, per int) error {
+	if err := os.MkdirAll(dir, 0o755); err != nil {
+		return err
+	}
+	old, _ := filepath.Glob(filepath.Join(dir, "cases_*"))
+	for _, f := range old {
+		os.Remove(f)
+	}
+	for k := 0; k*per < len(cases) || k == 0; k++ {
+		lo, hi := k*per, (k+1)*per
+		if hi > len(cases) {
+			hi = len(cases)
+		}
+		used := map[int]bool{}
+		for i := lo; i < hi; i++ {
+			for _, m := range bdRe.FindAllString(cases[i], -1) {
+				n, _ := strconv.Atoi(m[2:])
+				used[n] = true
+			}
+		}
+		var ids []int
+		for n := range used {
+			ids = append(ids, n)
+		}
+		sort.Ints(ids)
+		var sb strings.Builder
+		sb.WriteString(Header(prop))
+		bdMu.Lock()
+		for _, n := range ids {
+			sb.WriteString("Definition bd" + strconv.Itoa(n) + " := " + bdTerms[n] + ".\n")
+		}
+		bdMu.Unlock()
+		sb.WriteString("Definition cases : list (case) := [\n")
+		for i := lo; i < hi; i++ {
+			sb.WriteString("  " + cases[i])
+			if i+1 < hi {
+				sb.WriteString(";")
+			}
+			sb.WriteString("\n")
+		}
+		sb.WriteString("].\n")
+		sb.WriteString("Definition MISMATCHES := Eval vm_compute in (mismatches cases).\nPrint MISMATCHES.\n")
+		sb.WriteString("Definition NONTRIVIAL := Eval vm_compute in (nontrivial cases).\nPrint NONTRIVIAL.\n")
+		if err := os.WriteFile(filepath.Join(dir, "cases_"+strconv.Itoa(k)+".v"), []byte(sb.String()), 0o644); err != nil {
+			return err
+		}
+		if hi >= len(cases) {
+			break
+		}
+	}
+	return nil
+}
+
 func (m MBearer) Coq(bk *Bks) string {
 	if m.Cred == "NoHeader" {
 		return "NoHeader"
 	}
 	c := m.Claims
-	cl := lib.App("mkclaims", lib.Str(c.Topic), lib.Str(c.Prefix), lib.N(bk.ID(c.Booking)), strList(c.Scopes), strList(c.Aud),
+	cl := lib.App("mkclaims", cstr(c.Topic), cstr(c.Prefix), lib.N(bk.ID(c.Booking)), strList(c.Scopes), strList(c.Aud),
 		optZ(c.Exp), optZ(c.Nbf), optZ(c.Iat))
-	return lib.App("Bearer", lib.App("mkbearer", m.Shape, m.Alg, lib.Bool(m.SigOK), cl))
+	return bearerRef(lib.App("Bearer", lib.App("mkbearer", m.Shape, m.Alg, lib.Bool(m.SigOK), cl)))
 }
 
 func (r Req) Coq(bk *Bks) string {
 	route := map[string]string{"deny": "RDeny", "allow": "RAllow", "listdeny": "RListDeny", "listallow": "RListAllow",
 		"status": "RStatus", "notfound": "RNotFound", "badmethod": "RBadMethod", "opaque": "ROpaque"}[r.Route]
 	if r.Route == "session" {
-		route = lib.App("RSession", lib.Str(r.ID))
+		route = lib.App("RSession", cstr(r.ID))
 	}
 	bid := "None"
 	if r.Bid != nil {
@@ -58,7 +177,7 @@ func (r Req) Coq(bk *Bks) string {
 	}
 	exp := "None"
 	if r.Exp != nil {
-		exp = "(Some " + lib.Str(*r.Exp) + ")"
+		exp = "(Some " + cstr(*r.Exp) + ")"
 	}
 	return lib.App("mkreq", route, r.Auth.Classify().Coq(bk), bid, exp)
 }
@@ -72,7 +191,7 @@ func (o Op) Coq(bk *Bks) string {
 		if o.CodeN >= 0 {
 			code = "(Some " + lib.N(uint64(o.CodeN)) + ")"
 		}
-		return lib.App("OWs", lib.Str(o.Ws.Decoded), code, lib.N(uint64(o.Ws.UA)))
+		return lib.App("OWs", cstr(o.Ws.Decoded), code, lib.N(uint64(o.Ws.UA)))
 	case "leave":
 		return lib.App("OLeave", lib.N(uint64(o.Conn)))
 	case "setnow":
@@ -82,7 +201,7 @@ func (o Op) Coq(bk *Bks) string {
 }
 
 func (r Report) coqReport() string {
-	return lib.App("mkreport", lib.Str(r.Topic), strList(r.Scopes), lib.Z(r.Exp), lib.Bool(r.Read), lib.Bool(r.Write), lib.N(uint64(r.UA)))
+	return lib.App("mkreport", cstr(r.Topic), strList(r.Scopes), lib.Z(r.Exp), lib.Bool(r.Read), lib.Bool(r.Write), lib.N(uint64(r.UA)))
 }
 
 func (o Out) Coq() string {
@@ -97,7 +216,7 @@ func (o Out) Coq() string {
 			return "(OutWs WRefused)"
 		case "joined":
 			m := o.Member
-			return lib.App("OutWs", lib.App("WJoined", lib.App("mkmember", lib.N(0), lib.Str(m.Topic), strList(m.Scopes), lib.N(0),
+			return lib.App("OutWs", lib.App("WJoined", lib.App("mkmember", lib.N(0), cstr(m.Topic), strList(m.Scopes), lib.N(0),
 				lib.Z(m.Exp), lib.Bool(m.Read), lib.Bool(m.Write), lib.N(uint64(m.UA)))))
 		}
 		return "OutUnit" // handshake failed in a way the model has no word for: shows up as a mismatch
@@ -130,7 +249,7 @@ func (o Out) Coq() string {
 }
 
 func (c Config) Coq() string {
-	return lib.App("mkconfig", lib.Bool(c.AE), lib.Str(c.Host), lib.Str(c.Target), lib.Str(c.Audience), lib.Z(c.TTL))
+	return lib.App("mkconfig", lib.Bool(c.AE), cstr(c.Host), cstr(c.Target), cstr(c.Audience), lib.Z(c.TTL))
 }
 
 // Coq renders the case as a term of type Corr.Access_common.case.
@@ -150,7 +269,14 @@ func (c Case) Coq() string {
 	return lib.Tuple(c.Cfg.Coq(), lib.Z(c.T0), lib.List(ops), lib.List(outs))
 }
 
-// Header is the Require line of the case shards.
+// Header is the Require line of the case shards, followed by the string table.
 func Header(prop string) string {
-	return "From Relay Require Import Base.Prelude Model.DenyStore Model.Token Model.Access Corr.Access_common Corr." + prop + "."
+	var sb strings.Builder
+	sb.WriteString("From Relay Require Import Base.Prelude Model.DenyStore Model.Token Model.Access Corr.Access_common Corr." + prop + ".\n")
+	strMu.Lock()
+	defer strMu.Unlock()
+	for i, s := range strOrder {
+		sb.WriteString("Definition cs" + strconv.Itoa(i) + " := " + lib.Str(s) + ".\n")
+	}
+	return sb.String()
 }
